@@ -87,8 +87,10 @@ check("C09",
       "representable (fixed, near-fixed and random loci) and small random matrices are built as phased matrix, unphased "
       "matrix and via DenseUnphasedGenotyping; acount, afreq (+ exact-0/1 flags), apoly, afixed, maf, meh, gtcount, "
       "gtfreq, tacount, tafreq, the three codings and requested dtypes are recorded in exact integer form and "
-      "validated by TLC (GenoStats_Trace).",
-      "Diploid biallelic calls; float outputs logged as round(f*scale) with a lattice residual <= 1e-6; exactness at "
+      "validated by TLC (GenoStats_Trace). Other ploidies (1, 3, 4, 6): the same identities over dosage-class compositions are "
+      "model-checked (GenoStatsPoly, ploidy <= 6, n <= 9) and random matrices of these ploidies, and shallow / deep copies of "
+      "every matrix, are validated with the same trace specification.",
+      "Biallelic calls; the exhaustive compositions are diploid; mean expected heterozygosity taken as (ploidy/L) sum p(1-p); float outputs logged as round(f*scale) with a lattice residual <= 1e-6; exactness at "
       "the 0/1 boundary tested with the default dtype.",
       "TLA+ spec (GenoStats.tla) model-checked by TLC + TLC validation of recorded statistics of the real classes",
       "DESIGN.md C09")
@@ -246,10 +248,9 @@ check("C12",
       "origins, locus symmetry and complete linkage, and emits the joint-origin tables. With these tables TLC validates, in "
       "exact rationals, every sampled entry (all parent index tuples incl. repeated parents, identical parents) of the real "
       "two-/three-/four-way genetic and genic variance matrices, the two-/three-/four-way genetic covariance matrices "
-      "(between traits), the dihybrid genetic and genic variance matrices (heterozygous parents: the four haplotypes are the origins of the four-way tables), for chunk sizes 1/2/None/1024, selfing depths 0..3 and infinite (two-way), 1-3 chromosomes with tied "
+      "(between traits), the dihybrid genetic and genic variance matrices (heterozygous parents: the four haplotypes are the origins of the four-way tables), for chunk sizes 1/2/None/1024, selfing depths 0..3 and selfing for ever (every scheme: the limit stage SelfForever of the model, whose recombinant share TLC checks to be invariant under one more enumerated generation), 1-3 chromosomes with tied "
       "and linked markers, and the usefulness-criterion values ((UC - parental mean)^2 / i^2 must equal the variance).",
-      "Inbred parents; Haldane positions chosen so that all pairwise recombination fractions are multiples of 1/8; infinite "
-      "selfing uses the closed limit of the TLC-verified recurrence; the (abstract, non-instantiable) genic "
+      "Inbred parents; Haldane positions chosen so that all pairwise recombination fractions are multiples of 1/8; the (abstract, non-instantiable) genic "
       "covariance classes are not covered; observed entries converted with Fraction.limit_denominator(2e5).",
       "TLA+ spec (ProgenyVar.tla) generation-by-generation enumeration by TLC, tables fed back into a TLC trace validation of recorded matrix entries",
       "DESIGN.md C12")
@@ -311,13 +312,14 @@ check("C08",
       "NumPy's global streams untouched. The three as-written variants (OS entropy inside pymoo, custom operators on the global "
       "stream, select() sampling from the global stream) are refuted by TLC. Every catalogued stochastic call (4 sampling utilities, "
       "7 mating protocols, the dense meiosis / DH / cross helpers, phenotyping, 8 configuration classes, two hill climbers, prng "
-      "wrappers, jitter, EMBV matrix, 5 selection protocols, 13 pymoo-based optimisers, and 15 deterministic computations that may consume no "
-      "source at all) is executed in two fresh interpreters with different hash seeds and histories under four rng "
+      "wrappers, jitter, EMBV matrix, 5 selection protocols, 13 pymoo-based optimisers, 15 deterministic computations that may consume no "
+      "source at all, and 11 calls on components that were built, shallow- or deep-copied BEFORE the seeding) is executed in two fresh interpreters with different hash seeds and histories under four rng "
       "regimes plus random programs with mid-program re-seeding, the heap's free lists being filled with copy-specific garbage before every call "
       "(uninitialised memory is a hidden entropy source); TLC validates the recorded touched-source sets and digests against "
       "the intended design.",
       "Bit-identical = equal SHA-1 of a canonical serialisation; a source counts as consumed when its state digest changed; "
-      "subset genetic optimisers and Random*Selection given their own generator still use the global stream (known findings).",
+      "subset genetic optimisers and Random*Selection given their own generator still use the global stream, and deep copies of "
+      "mating protocols / hill climbers / selection protocols made before the seeding are detached from the global generator (known findings).",
       "TLA+ spec (Entropy.tla) exhaustive TLC model check of a twin product with refuted as-written variants + TLC trace validation of twin executions (Entropy_Trace.tla)",
       "DESIGN.md C08")
 
